@@ -69,6 +69,8 @@ try:
         except Exception as e:
             res['replay_kind'] = 'unreadable: %r' % e
 finally:
+    # the run regenerated lean/Generated from the patched tree: put the committed tables back
+    sh(['git', '-C', V, 'checkout', '--', 'lean/Generated'])
     sh(['git', '-C', '/repo', 'worktree', 'remove', '--force', wt])
     shutil.rmtree(wt, ignore_errors=True)
 confirmed = res.get('applies') and res.get('suite_passes') and res.get('demo_unchanged_exit') == 0 and res.get('demo_changed_exit') == 1
